@@ -16,7 +16,9 @@ EXPLANATION = ('Completeness is a numerical statement about eight closed-form br
 EXPLANATION += (' (R02.4) sibling agreement: theta1..theta5 of the 5-DOF and the 6-DOF solver are the same terms, row by row; (R02.5) the '
                 'positional columns theta1..theta3 of all four shoulder/elbow branches equal, as polynomials over opaque function atoms, the '
                 'published OPW closed form (Brandstoetter et al. 2014, eqs. for theta1_i/ii, theta2_i..iv, theta3_i..iv) written over the wrist '
-                'centre (cx, cy, cz) and the parameters - this is where the lateral offset b enters, which no bundled test exercises.')
+                'centre (cx, cy, cz) and the parameters - this is where the lateral offset b enters, which no bundled test exercises; (R02.6) no early '
+                'exit: every value an internal solver returns is the vector that collects the verified candidates (a reachability pre-check that '
+                'returns an empty answer looks at one shoulder branch only and drops the answers of the other).')
 NOT_DECIDED = 'that each non-singular configuration lies on one of the branches within tolerance; absence of duplicates; equal answer-set size (all numerical)'
 ASSUMPTIONS = ['sign corrections are +1 or -1 for the joints of a 6-DOF robot (s*s = 1)']
 
@@ -116,8 +118,32 @@ def check_inverse_map(ctx, b, ncol, rule):
         ctx.check(found, rule, name + '/inverse-map-site', b.where(0), b.path, 'the sign/offset mapping of the candidate table was not found')
 
 
+def check_single_exit(ctx, b, rule):
+    """every value the solver returns is the vector that collects the verified candidates: a pre-check that returns an empty
+    answer before the candidates are computed (`if s1 > c2 + kappa { return Vec::new() }`) decides reachability by something
+    other than the eight branches and their verification, and drops the answers of the branches it did not look at."""
+    name = b.path.split('::')[-1]
+    pushes = [(bi, t) for bi, t in b.calls() if cname(callee_name(t)) == 'Vec::push']
+    roots = {util._ref_root(b, t['args'][0]) for bi, t in pushes} - {None}
+    rvs = b.return_values()
+    if len(rvs) <= 1 and len(b.return_blocks()) <= 1:
+        ctx.ok(rule, name + '/single-exit', b.where(0), 'one return value')
+        return
+    bad = []
+    for t, d, rb in rvs:
+        src = None
+        if d and d[0] == 'st' and d[3]['rv']['k'] == 'use' and d[3]['rv']['op']['k'] in ('move', 'copy') and not d[3]['rv']['op']['place']['proj']:
+            src = d[3]['rv']['op']['place']['local']
+        if src is None or (roots and src not in roots):
+            bad.append((b.where(d[1], d[2]) if d else b.where(rb), show(strip(t), maxdepth=3)))
+    ctx.check(not bad, rule, name + '/single-exit', bad[0][0] if bad else b.where(0), b.path,
+              'the solver must return the vector of verified candidates on every path; it also returns %s' % ', '.join(x[1] for x in bad[:2]),
+              found=str([x[1] for x in bad]), detail='%d return values' % len(rvs))
+
+
 def run(ctx):
     prog = ctx.prog
+    ctx.rule('R02.6', 'no early exit: every value an internal solver returns is the vector that collects the verified candidates')
     ctx.rule('R02.4', 'theta1..theta5 of the 5-DOF solver equal the first five columns of the 6-DOF candidate table (sibling agreement)')
     ctx.rule('R02.5', 'theta1..theta3 of the four positional branches equal the published OPW closed form over the wrist centre and the parameters (ring normal form over function atoms)')
     ctx.rule('R02.1', 'F_i(G_i(theta)) = theta for the forward joint map F and the inverse joint map G (ring normal form, s*s = 1), same index i')
@@ -127,6 +153,7 @@ def run(ctx):
     ctx.require(six is not None and five is not None, 'internal solvers')
     for b, ncol in ((six, 6), (five, 5)):
         check_inverse_map(ctx, b, ncol, 'R02.1')
+        check_single_exit(ctx, b, 'R02.6')
 
     # ---- R02.2 on the 6-DOF table
     t6 = theta_table(six)
